@@ -65,8 +65,10 @@ class C08(Spec):
         facts["_InitCapacity"] = m.group(1) if m else None
         if facts["_LoadFactor"] != "0.5":
             probs.append({"what": "source fact changed: _LoadFactor is not 0.5 (Model/ConcPMap.needRehash assumes 1/2)", "found": facts["_LoadFactor"]})
-        if facts["_InitCapacity"] != "4096":
-            probs.append({"what": "source fact changed: _InitCapacity is not 4096 (Driver/Conc.initCap)", "found": facts["_InitCapacity"]})
+        # the theorems hold for every power-of-two capacity (Inv requires it); the driver takes the value from Generated/Consts
+        ic = facts["_InitCapacity"]
+        if ic is None or int(ic) <= 0 or int(ic) & (int(ic) - 1):
+            probs.append({"what": "source fact changed: _InitCapacity is not a positive power of two (side condition of Inv / mask arithmetic)", "found": ic})
 
         def body(name):
             m = re.search(r"func \(self \*ProgramCache\) %s\(.*?\n}\n" % name, code, flags=re.S)
